@@ -433,6 +433,15 @@ def _truthy_when(expr: ast.AST, assume: Dict[str, bool], default_calls: bool) ->
     t = norm(expr)
     if t in assume:
         return assume[t]
+    if isinstance(expr, ast.Compare) and len(expr.ops) == 1 and isinstance(expr.ops[0], (ast.Eq, ast.NotEq)):
+        # the same test written the other way round / with the complementary operator
+        a, b = norm(expr.left), norm(expr.comparators[0])
+        same, other = ("==", "!=") if isinstance(expr.ops[0], ast.Eq) else ("!=", "==")
+        for l, r in ((a, b), (b, a)):
+            if f"{l} {same} {r}" in assume:
+                return assume[f"{l} {same} {r}"]
+            if f"{l} {other} {r}" in assume:
+                return not assume[f"{l} {other} {r}"]
     if isinstance(expr, ast.Constant):
         return bool(expr.value)
     if isinstance(expr, ast.BoolOp):
@@ -695,8 +704,15 @@ def _safe_callables(prog: Program, res: Result) -> None:
                 while loop is not None and not isinstance(loop, ast.For):
                     loop = parent(loop)
                 if isinstance(loop, ast.For) and "ClassDef" in norm(loop.iter):
-                    txt = norm(host.test)
-                    names_in_test = {x.id for x in ast.walk(host.test) if isinstance(x, ast.Name)}
+                    # all conditions between the admission and the loop (written as one conjunction or as nested ifs)
+                    conds = []
+                    a_ = host
+                    while a_ is not None and a_ is not loop:
+                        if isinstance(a_, ast.If):
+                            conds.append(a_.test)
+                        a_ = parent(a_)
+                    txt = " and ".join(norm(c_) for c_ in conds)
+                    names_in_test = {x.id for c_ in conds for x in ast.walk(c_) if isinstance(x, ast.Name)}
                     from ..defuse import assignments
                     # the constructors of the class: a local of the test whose definition selects __init__ / __new__
                     ctor = "__init__" in txt or any(d is not None and "__init__" in norm(d) for nm in names_in_test for _, d in assignments(fn, nm))
